@@ -13,6 +13,7 @@ for prop in sorted(os.listdir("/tmp/seed/out")):
         key="%s_%d"%(prop,k)
         if len(sys.argv)>1 and key not in sys.argv[1:]: continue
         run=open("%s/demo%d/RUN.txt"%(out,k)).read().replace("$OUT",out).replace("{OUT}",out).replace("${OUT}",out)
+        run=re.sub(r"\\\n\s*"," ",run)   # join backslash continuations
         setup=[l.strip() for l in run.split("\n") if re.match(r"^\s*(mkdir -p|cp )", l)]
         tests=[]
         for l in run.split("\n"):
